@@ -133,3 +133,26 @@ Theorem C06_from_the_text :
          exists pre z : list nat, w = pre ++ a :: inp' /\ terminal_string g z /\ derives g [0] (pre ++ a :: z).
 Proof. exact EndToEndWf.text_never_shifts_a_bad_token. Qed.
 Print Assumptions C06_from_the_text.
+
+From YG Require Import LRBase CompleteDriver LR0Build Resolve TableCert PackCore Pipeline PipelineRun Drivers DriverSim Values Front WfGrammar YParser EndToEnd GotoAfterReduce EndToEndWf.
+Close Scope Z_scope.
+Open Scope nat_scope.
+
+(* from the bytes of the grammar file: no run of any variant on the tables computed for a text ends in a crash (index out of range) or a nil result - an input is accepted with a derivation, rejected through the error action, or the run is out of fuel *)
+Theorem C06_no_crash_from_the_text :
+  forall (s : list Ascii.ascii) (b : built) (t : tables),
+         generate_text s = GOk b t ->
+         packed_agrees (b_gi b) t ->
+         forall (v : variant) (act : semact) (fuel : nat) (inp : list tok),
+         (forall x : tok, In x inp -> fst x <> eof /\ fst x < gi_nsyms (b_gi b)) ->
+         match parse v t (gi_rules (b_gi b)) act fuel inp with
+         | RAcc value out =>
+             exists tr : vtree,
+               vvalid (gi_rules (b_gi b)) tr /\
+               Some (vroot (gi_rules (b_gi b)) tr) = hd_error (rhs_of (gi_rules (b_gi b)) 0) /\
+               vyield tr = inp /\ vpost tr = out /\ value = veval act tr
+         | RCrash | RNil => False
+         | _ => True
+         end.
+Proof. exact EndToEndWf.text_values. Qed.
+Print Assumptions C06_no_crash_from_the_text.
